@@ -75,7 +75,7 @@ Proof.
   - set (w2 := with_use_ts (open_cb d) (snd (full_cb w1))).
     assert (N3 : nd w w2 0) by (apply (nd_trans _ _ _ 0 0 N2); apply nd_with_use_ts; intros; apply nd_open_cb).
     destruct (gt_diff32 n (c_psize (w_c w2)) (c_at (w_c w2))); cbn [fst snd].
-    + apply (nd_trans _ _ _ 0 0 N3), nd_fail.
+    + apply (nd_trans _ _ _ 0 1 N3). pose proof (nd_no_space w2) as X. exact X.
     + exact N3.
 Qed.
 
@@ -105,23 +105,87 @@ Proof.
   rewrite <- !app_assoc. reflexivity.
 Qed.
 
+(* the world right after the re-opening inside a packet switch: inside a tracing section a packet
+   is open and empty there (at = off_content), also on an eager platform *)
+Lemma wu_pk f w :
+  let x := f (set_c w (set_use_ts (w_c w) true)) in
+  c_open (w_c (with_use_ts f w)) = c_open (w_c x) /\ c_at (w_c (with_use_ts f w)) = c_at (w_c x) /\
+  c_off_content (w_c (with_use_ts f w)) = c_off_content (w_c x) /\
+  c_in_ts (w_c (with_use_ts f w)) = c_in_ts (w_c x).
+Proof. cbv zeta. repeat split. Qed.
+
+Lemma switch_reopened d w2 :
+  c_in_ts (w_c w2) = true ->
+  let w' := with_use_ts (open_cb d) (snd (full_cb (with_use_ts (close_cb d) w2))) in
+  c_open (w_c w') = true /\ c_at (w_c w') = c_off_content (w_c w').
+Proof.
+  intros Hi. cbv zeta.
+  set (w2' := set_c w2 (set_use_ts (w_c w2) true)).
+  assert (Hi2 : c_in_ts (w_c w2') = true) by exact Hi.
+  set (w3 := with_use_ts (close_cb d) w2).
+  destruct (wu_pk (close_cb d) w2) as (P1 & P2 & P3 & P4). fold w2' w3 in P1, P2, P3, P4.
+  assert (I3 : c_in_ts (w_c w3) = true) by (rewrite P4; apply (close_cb_blk d true w2' Hi2)).
+  assert (S3 : c_open (w_c w3) = false \/ (c_open (w_c w3) = true /\ c_at (w_c w3) = c_off_content (w_c w3))).
+  { rewrite P1, P2, P3.
+    destruct (close_cb_dec d w2') as [[O [_ [_ [_ X]]]]|[[_ [O _]]|[_ [_ [O A]]]]].
+    - left. rewrite O. apply X, Hi2.
+    - left. exact O.
+    - right. auto. }
+  destruct (full_cb_pk w3) as [O4 [I4 _]]. set (w4 := snd (full_cb w3)) in *.
+  assert (A4 : c_at (w_c w4) = c_at (w_c w3) /\ c_off_content (w_c w4) = c_off_content (w_c w3)).
+  { unfold w4. rewrite full_cb_eq. prj. togs. auto. }
+  destruct A4 as [A4 F4].
+  set (w4' := set_c w4 (set_use_ts (w_c w4) true)).
+  assert (Hi4 : c_in_ts (w_c w4') = true) by (change (c_in_ts (w_c w4) = true); congruence).
+  destruct (wu_pk (open_cb d) w4) as (Q1 & Q2 & Q3 & _). fold w4' in Q1, Q2, Q3.
+  rewrite Q1, Q2, Q3.
+  destruct (open_cb_dec d w4') as [[O [A [_ [F X]]]]|[_ [O [A _]]]].
+  - specialize (X Hi4).
+    change (c_open (w_c w4')) with (c_open (w_c w4)) in *.
+    change (c_at (w_c w4')) with (c_at (w_c w4)) in *.
+    change (c_off_content (w_c w4')) with (c_off_content (w_c w4)) in *.
+    destruct S3 as [S3|[_ S3]]; [congruence|]. split; congruence.
+  - auto.
+Qed.
+
+(* why a reservation fails: the record exceeds the capacity test, or is_backend_full just answered
+   "full", or (since the repair of S18) the record does not fit the packet just opened by the packet
+   switch - an EMPTY packet (position = off_content) whose buffer the platform chose *)
 Theorem reserve_false_reason d w n : fst (reserve d w n) = false ->
   gt_diff32 n (c_psize (w_c w)) (c_off_content (w_c w)) = true \/
-  exists l, w_log (snd (reserve d w n)) = l ++ [EAns true; EDisc].
+  (exists l, w_log (snd (reserve d w n)) = l ++ [EAns true; EDisc]) \/
+  (exists w1 w',
+      fst (full_cb w1) = false /\ w' = with_use_ts (open_cb d) (snd (full_cb w1)) /\
+      w_log (snd (reserve d w n)) = w_log w' ++ [EDisc] /\
+      gt_diff32 n (c_psize (w_c w')) (c_at (w_c w')) = true /\
+      (c_in_ts (w_c w) = true -> c_open (w_c w') = true /\ c_at (w_c w') = c_off_content (w_c w'))).
 Proof.
   rewrite reserve_eq. unfold reserve', reserve2.
   destruct (gt_diff32 n (c_psize (w_c w)) (c_off_content (w_c w))); [auto|]. intros H. right.
+  assert (R2 : forall w2, (c_in_ts (w_c w) = true -> c_in_ts (w_c w2) = true) ->
+    fst (reserve2 d n w2) = false ->
+    (exists l, w_log (snd (reserve2 d n w2)) = l ++ [EAns true; EDisc]) \/
+    (exists w1 w',
+      fst (full_cb w1) = false /\ w' = with_use_ts (open_cb d) (snd (full_cb w1)) /\
+      w_log (snd (reserve2 d n w2)) = w_log w' ++ [EDisc] /\
+      gt_diff32 n (c_psize (w_c w')) (c_at (w_c w')) = true /\
+      (c_in_ts (w_c w) = true -> c_open (w_c w') = true /\ c_at (w_c w') = c_off_content (w_c w')))).
+  { intros w2 Hi2. unfold reserve2.
+    destruct (gt_diff32 n (c_psize (w_c w2)) (c_at (w_c w2))); [|cbn [fst]; intros X; discriminate X].
+    cbv zeta. set (w3 := with_use_ts (close_cb d) w2) in *.
+    destruct (fst (full_cb w3)) eqn:F2; [intros _; left; apply full_true_log; exact F2|].
+    match goal with |- fst (if ?c then _ else _) = false -> _ => destruct c eqn:G end;
+      [|cbn [fst]; intros X; discriminate X]. intros _. right.
+    exists w3, (with_use_ts (open_cb d) (snd (full_cb w3))).
+    split; [exact F2|]. split; [reflexivity|]. split; [reflexivity|]. split; [exact G|].
+    intros Hi. apply switch_reopened, Hi2, Hi. }
   destruct (c_at (w_c w) =? c_psize (w_c w)).
-  - destruct (fst (full_cb w)) eqn:F; [apply full_true_log; exact F|].
-    set (w1 := with_use_ts (open_cb d) (snd (full_cb w))) in *.
-    destruct (gt_diff32 n (c_psize (w_c w1)) (c_at (w_c w1))); [|discriminate].
-    cbv zeta in *. set (w2 := with_use_ts (close_cb d) w1) in *.
-    destruct (fst (full_cb w2)) eqn:F2; [apply full_true_log; exact F2|].
-    destruct (gt_diff32 _ _ _); discriminate.
-  - destruct (gt_diff32 n (c_psize (w_c w)) (c_at (w_c w))); [|discriminate].
-    cbv zeta in *. set (w2 := with_use_ts (close_cb d) w) in *.
-    destruct (fst (full_cb w2)) eqn:F2; [apply full_true_log; exact F2|].
-    destruct (gt_diff32 _ _ _); discriminate.
+  - destruct (fst (full_cb w)) eqn:F; [left; apply full_true_log; exact F|].
+    apply R2; [|exact H]. intros Hi.
+    rewrite (proj2 (proj2 (proj2 (wu_pk (open_cb d) (snd (full_cb w)))))).
+    match goal with |- c_in_ts (w_c (open_cb d ?x)) = true => apply (open_cb_blk d true x) end.
+    change (c_in_ts (w_c (snd (full_cb w))) = true). rewrite full_cb_eq. prj. togs. exact Hi.
+  - apply R2; [auto|exact H].
 Qed.
 
 (* the remaining stages of a tracing call log no discard *)
@@ -155,6 +219,12 @@ Proof.
     destruct (fst (reserve d w0' (ae - c_at (w_c w0)))); cbn [negb].
     + set (w1 := snd (reserve d w0' _)) in *.
       destruct (w_err w1); [exists 0; split; [apply (nd_trans _ _ _ 0 0 N0' N1)|lia]|].
+      match goal with |- context [trace_recheck d e args ?a ?x] =>
+        destruct (trace_recheck_cases d e args a x) as [Crc|[Crc|(_ & a2 & _ & _ & Crc)]]; rewrite Crc; cbn [fst snd negb] end.
+      2:{ exists 0. split; [|lia]. apply (nd_trans _ _ _ 0 0 (nd_trans _ _ _ 0 0 N0' N1)), nd_fail. }
+      2:{ exists 1. split; [|lia]. unfold recheck_discard.
+          eapply nd_eq_log; [|apply (nd_trans _ _ _ 0 1 (nd_trans _ _ _ 0 0 N0' N1)), nd_no_space].
+          reflexivity. }
       unfold trace_ser, trace_mark, trace_commit. cbv zeta.
       set (w1' := if _ && _ then logev w1 _ else w1).
       assert (N2 : nd w w1' 0).
@@ -169,4 +239,33 @@ Proof.
     + exists 1. split; [|lia].
       eapply nd_eq_log; [|apply (nd_trans _ _ _ 0 1 N0' N1)]. up. reflexivity.
   - exists 0. split; [|lia]. apply (nd_trans _ _ _ 0 0 N0'), nd_fail.
+Qed.
+
+(* the discard introduced by the repair of S9: after a successful reservation the call is abandoned
+   (without error) only when the reservation moved the position - a packet switch - and the record,
+   sized again at the new position, does not fit the space left in the packet; it is then discarded
+   and counted exactly once *)
+Theorem recheck_false_reason d e args at0 w :
+  fst (trace_recheck d e args at0 w) = false -> w_err (snd (trace_recheck d e args at0 w)) = false ->
+  c_at (w_c w) <> at0 /\
+  (exists a2, size_parts (rec_parts d e 0%Z args) (c_at (w_c w)) = Some a2 /\
+              gt_diff32 (a2 - c_at (w_c w)) (c_psize (w_c w)) (c_at (w_c w)) = true) /\
+  w_log (snd (trace_recheck d e args at0 w)) = w_log w ++ [EDisc] /\
+  c_disc (w_c (snd (trace_recheck d e args at0 w))) = S (c_disc (w_c w)) /\
+  c_in_ts (w_c (snd (trace_recheck d e args at0 w))) = false.
+Proof.
+  destruct (trace_recheck_cases d e args at0 w) as [C|[C|(Ha & a2 & Hs & G & C)]]; rewrite C; cbn [fst snd].
+  - discriminate.
+  - intros _ X. discriminate X.
+  - intros _ _. split; [exact Ha|]. split; [exists a2; auto|]. repeat split.
+Qed.
+
+Theorem recheck_nd d e args at0 w :
+  w_err (snd (trace_recheck d e args at0 w)) = false ->
+  nd w (snd (trace_recheck d e args at0 w)) (if fst (trace_recheck d e args at0 w) then 0 else 1).
+Proof.
+  destruct (trace_recheck_cases d e args at0 w) as [C|[C|(Ha & a2 & Hs & G & C)]]; rewrite C; cbn [fst snd].
+  - intros _. apply nd_refl.
+  - intros X. discriminate X.
+  - intros _. unfold recheck_discard. eapply nd_eq_log; [|apply nd_no_space]. reflexivity.
 Qed.
